@@ -582,7 +582,8 @@ func checkUpdate(o *updObs) []viol {
 		}
 		exempt := ""
 		for j := range before {
-			if j != i && changed(&before[j]) && beneath(e.Dir, before[j].Dir) {
+			// "beneath" in the mount tree: in a directory below, or stacked on the same mount point later
+			if j != i && changed(&before[j]) && (beneath(e.Dir, before[j].Dir) || (e.Dir == before[j].Dir && j < i)) {
 				exempt = "beneath changed " + eShort(&before[j])
 			}
 		}
@@ -606,7 +607,7 @@ func checkUpdate(o *updObs) []viol {
 			continue
 		}
 		for j := i + 1; j < len(before); j++ {
-			if !beneath(before[j].Dir, before[i].Dir) {
+			if !beneath(before[j].Dir, before[i].Dir) && before[j].Dir != before[i].Dir {
 				continue
 			}
 			q := planOf[j]
